@@ -16,7 +16,7 @@
     ([t_sig]), the UUID text grammar ([uuid_ok]) and base64url decoding of a v1 PSSID
     ([pssid1_ok]).  Everything after that -- which members are looked at, in which order,
     with which types and comparisons -- is modelled. *)
-From Coq Require Export List NArith Bool String Lia.
+From Coq Require Export List NArith Bool String.
 From Sci Require Export Gen.SnapToken.
 Export ListNotations.
 Local Open Scope string_scope. Local Open Scope N_scope.
